@@ -28,8 +28,10 @@ func DHTFindNode(params DHTFindNodeParams) (*DHTFindNodeResult, error) {
 		params.Validate = func(NodeInfo) bool { return true }
 	}
 	var res DHTFindNodeResult
+	var haveClosest bool
 	dhtIterate(params.Initial, params.Target[:], 10, func(node NodeInfo) ([]NodeInfo, bool) {
-		if res.Closest.IsZero() || DistanceLt(params.Target[:], node.ID[:], res.Closest[:]) {
+		if !haveClosest || DistanceLt(params.Target[:], node.ID[:], res.Closest[:]) {
+			haveClosest = true
 			res.Closest = node.ID
 			res.Info = node.Info
 		}
@@ -127,7 +129,9 @@ func DHTGet(params DHTGetParams) (*DHTGetResult, error) {
 			return nil, true
 		}
 		res.NumResponded++
-		res.Closest = node.ID
+		if res.NumResponded == 1 || DistanceLt(params.Key, node.ID[:], res.Closest[:]) {
+			res.Closest = node.ID
+		}
 		if resp.Value != nil && params.Validate(resp.Value) {
 			res.Value = resp.Value
 			res.From = node.ID
@@ -178,7 +182,7 @@ func DHTPut(params DHTPutParams) (*DHTPutResult, error) {
 		res.Responded++
 		if resp.Accepted {
 			res.Accepted++
-			if DistanceLt(params.Key, node.ID[:], res.Closest[:]) {
+			if res.Accepted == 1 || DistanceLt(params.Key, node.ID[:], res.Closest[:]) {
 				res.Closest = node.ID
 			}
 		}
